@@ -61,7 +61,10 @@ var _ io.ReadCloser = &teeReadCloser{}
 type teeReadCloser struct {
 	w io.WriteCloser
 	r io.ReadCloser
-	t io.Reader
+
+	// werr is the first error returned by w. Once set nothing more is written
+	// to w, but reading from r continues.
+	werr error
 }
 
 // TeeReadCloser constructs a teeReadCloser from the passed reader and writer.
@@ -69,13 +72,23 @@ func TeeReadCloser(r io.ReadCloser, w io.WriteCloser) io.ReadCloser {
 	return &teeReadCloser{
 		w: w,
 		r: r,
-		t: io.TeeReader(r, w),
 	}
 }
 
-// Read calls the underlying TeeReader Read method.
+// Read reads from the underlying reader and writes what it read to the writer.
+// A failing writer does not affect what is read: unlike io.TeeReader, which
+// reports a write error in place of the bytes it just read, the reader of the
+// tee either sees the whole stream or the underlying reader's own error. It
+// must never see a stream that is silently cut short, because consumers such
+// as line based decoders can mistake that for a clean end of input.
 func (t *teeReadCloser) Read(b []byte) (int, error) {
-	return t.t.Read(b)
+	n, err := t.r.Read(b)
+	if n > 0 && t.werr == nil {
+		if _, werr := t.w.Write(b[:n]); werr != nil {
+			t.werr = werr
+		}
+	}
+	return n, err
 }
 
 // Close closes the underlying ReadCloser, then the Writer for the TeeReader.
